@@ -13,7 +13,7 @@ RULE = ("maximisers: every composition (n+,n-,n0) with N<=11 (quick) / N<=15 (th
         "(brute force over all 3^N patterns) and 2 seed-chosen arrangements, each spelled with random residues, are fed to "
         "the real get_kappa/get_delta/get_deltaMax. patterns: every +/-/0 pattern with N<=8 (quick) / N<=10 (thorough). "
         "hyp: sequences of all composition classes up to 100 (quick) / 300 (thorough) residues incl. single-minority-charge "
-        "homopolymers. Oracle on the returned k,d,m: (a) k==-1 <=> m==0; (b) m!=0 => k==1.0 if 1<d/m<1.1 else d/m; "
+        "homopolymers. long-neighbours: 2-4 compositions of one length 101..160 differing by one residue, analysed one after another in the same process. Oracle on the returned k,d,m: (a) k==-1 <=> m==0; (b) m!=0 => k==1.0 if 1<d/m<1.1 else d/m; "
         "(c) k==-1 or 0<=k<=1; fidelity d==exact delta, m==documented-family maximum. Non-trivial: m>0, N>=5 and a "
         "charged residue; distinct by sequence.")
 ASSUMPTIONS = ["vlc/ref.py (exact delta, documented delta-max family) is the reference for d and m",
@@ -129,6 +129,20 @@ def hyp_case(draw, max_len):
     return {"seq": draw(gens.sequences(max_len=40 if warm else max_len)), "warm": warm}
 
 
+def check_neighbours(ctx, case):
+    """Neighbouring compositions of one length > 100, analysed one after another in the same process."""
+    if "seq" in case:
+        return check_seq(ctx, case)
+    for s in case["seqs"]:
+        check_seq(ctx, {"seq": s, "neighbour_of": case["seqs"][0]})
+
+
+@st.composite
+def neighbour_case(draw):
+    comps = draw(gens.neighbour_compositions())
+    return {"comps": comps, "seqs": [draw(gens.by_composition(*c)) for c in comps]}
+
+
 def parts(tier):
     return [
         Part("maximisers", "enum", check=check_maximiser, cases=maximiser_cases, exhaustive=True,
@@ -138,4 +152,6 @@ def parts(tier):
         Part("hyp-sequences", "hyp", check=check_seq,
              strategy=lambda t: hyp_case(100 if t == "quick" else 300),
              examples={"quick": 4800, "thorough": 32000}, shards={"quick": 16, "thorough": 16}),
+        Part("hyp-long-neighbours", "hyp", check=check_neighbours, strategy=lambda t: neighbour_case(), shrink=False,
+             examples={"quick": 96, "thorough": 1600}, shards={"quick": 16, "thorough": 16}),
     ]
